@@ -99,5 +99,5 @@ class Builder:
         srcs = [os.path.join(HARNESS, harness), os.path.join(SUPPORT, 'native_driver.cc')]
         if stubs: srcs.append(os.path.join(SUPPORT, 'stubs.cc'))
         run(['g++', '-std=c++17', '-O1', '-g', '-DNDEBUG', '-DUSE_PPOLL=1', '-DVERIF_NATIVE', '-w'] + inc + ['-I', HARNESS] + ['-D' + d for d in defines]
-            + ['-DVERIF_REPO_SRC="%s"' % SRC] + srcs + [s.obj[tag + u] for u in units] + s.native_flags + ['-no-pie', '-Wl,--unresolved-symbols=ignore-all', '-o', exe])
+            + ['-DVERIF_REPO_SRC="%s"' % SRC] + srcs + [s.obj[tag + u] for u in units] + s.native_flags + ['-no-pie', '-Wl,--unresolved-symbols=ignore-all', '-Wl,--wrap=fopen,--wrap=fclose,--wrap=fwrite,--wrap=fprintf,--wrap=fflush,--wrap=setvbuf,--wrap=ftell,--wrap=fseek,--wrap=unlink,--wrap=rename,--wrap=truncate', '-o', exe])
         return exe
